@@ -31,7 +31,7 @@ MAL_TOKENS = ['1', 'zz', '+', '-', '*', '(', ')', '<<', '&', 'LSB(', '@', '!']
 def meta(tier):
     q = tier == 'quick'
     return {
-        'rule': 'every expression tree with <=N operator nodes over the atom sets (printed minimally parenthesised and '
+        'rule': 'expressions of one operator (thorough: two) read out of source lines (.8byte, a constant, an #if condition) with blanks, tabs, or both between the tokens; then: every expression tree with <=N operator nodes over the atom sets (printed minimally parenthesised and '
                 'fully parenthesised), every literal value x notation, every token sequence up to the length bound; '
                 'non-trivial = a tree with >=2 operators whose minimal rendering needs the stated precedence/associativity '
                 '(fewer parentheses than the full rendering) or a malformed token sequence; distinct by construction',
@@ -50,7 +50,7 @@ def meta(tier):
             '% is judged only for non-negative operands (integer or not: a - b*floor(a/b)); division/modulo by zero, negative shift counts and '
             'bitwise operators on non-integers are not judged',
         ],
-        'floors': {'evaluations': 1000, 'nontrivial': 100, 'clauses': ['value', 'malformed-rejected', 'literal', 'byte-extract']},
+        'floors': {'evaluations': 1000, 'nontrivial': 100, 'clauses': ['value', 'malformed-rejected', 'literal', 'byte-extract', 'in-directive']},
         'nshards': 64, 'xcheck': 0,
     }
 
@@ -190,6 +190,7 @@ def judge_value(acc, tree, clause):
 def shard(acc, tier, idx, n):
     q = tier == 'quick'
     ctr = 0
+    directive_contexts(acc, idx, n, q)
     # ---- trees ---------------------------------------------------------------------------------
     plan = [(0, '8'), (1, '8'), (2, '8'), (3, '4' if q else '6')]
     if not q:
@@ -270,6 +271,40 @@ def shard(acc, tier, idx, n):
                 acc.judge(clause='wellformed-sequence')
 
 
+def directive_contexts(acc, idx, n, q):
+    """The same expressions where the assembler reads them out of a source line - a data directive, a constant, a fill count, a
+    condition - with blanks, tabs or both between the tokens: the value is the value of the expression, whatever separates its tokens."""
+    seps = (' ', '\t', ' \t ')
+    ctr = 0
+    for t in trees(1, '8') if q else itertools.chain(trees(1, '8'), trees(2, '2')):
+        ctr += 1
+        if ctr % n != idx:
+            continue
+        try:
+            want = R.final_value(t, LABELS)
+        except R.DontCare:
+            continue
+        text = R.render(t)
+        if ' ' not in text or "'" in text:
+            continue
+        if not (-(1 << 63) <= want < (1 << 64)):
+            continue
+        for sep in seps:
+            e = text.replace(' ', sep)
+            # (a condition reads preprocessor symbols, not labels: the #if context is used for label-free expressions with a non-negative value)
+            cond = 'zz' not in e and want >= 0
+            src = f'zz = 4660\n    .8byte {e}\nKD = {e}\n    .8byte KD\n' + (f'#if {e} == {want}\n    .byte 1\n#else\n    .byte 2\n#endif\n' if cond else '')
+            case = Case(ISA, src)
+            out = acc.run(case)
+            img = (want % (1 << 64)).to_bytes(8, 'big')
+            spec = {'type': 'program', 'expect': 'OK', 'image_hex': (img + img + (b'\x01' if cond else b'')).hex(), 'expr': e}
+            from mc.judges import judge_expect
+            m = judge_expect(spec, [out])
+            if m:
+                acc.violation([case], spec, f'{e!r} in a data directive / constant / condition: {m}', [out])
+            acc.judge(clause='in-directive', nontrivial_distinct=(sep != ' '))
+
+
 def attribute(text, want, got):
     return None
 
@@ -289,6 +324,9 @@ def _programs(expr):
 
 def judge(spec, outcomes):
     """spec: {'expr', 'expect': int | 'REJECT'}; outcomes: one Outcome of a `.8byte` program."""
+    if spec.get('type') == 'program':
+        from mc.judges import judge_expect
+        return judge_expect(spec, outcomes)
     o = outcomes[0]
     want = spec['expect']
     if want == 'REJECT':
@@ -305,6 +343,9 @@ def judge(spec, outcomes):
 
 def confirm(viol):
     spec = viol['spec']
+    if spec.get('type') == 'program':
+        o = world.run_cli(Case.from_json(viol['cases'][0]))
+        return judge(spec, [o]), [o]
     outs = []
     first = None
     for case in _programs(spec['expr']):
